@@ -177,6 +177,18 @@ class C10(CFGProp):
             la = {tuple(ren[x] for x in w) for w in la}
             lb = None if lb is None else {tuple(ren[x] for x in w) for w in lb}
         if case[0] == "un":
+            # second pass on an operand whose analyses / normal form are already cached (it was queried before)
+            warm = ctx.call(O.build_cfg, ca, scheme, "full")
+            if ctx.returns(warm, "C10.build"):
+                warm = warm.value
+                for w in (["a"], [], ["a", "b"]):
+                    ctx.call(warm.contains, [ren.get(x, x) for x in w])
+                ctx.call(warm.get_words, 1)
+                rev = {w[::-1] for w in la}
+                self._res(ctx, "C10.reverse", ctx.call(warm.reverse), rev, operand="queried before")
+                self._res(ctx, "C10.closure", ctx.call(warm.get_closure), star(la), operand="queried before")
+                self._res(ctx, "C10.positive_closure", ctx.call(warm.get_positive_closure), star(la, plus=True),
+                          operand="queried before")
             self._res(ctx, "C10.closure", ctx.call(a.get_closure), star(la))
             self._res(ctx, "C10.positive_closure", ctx.call(a.get_positive_closure), star(la, plus=True))
             rev = {w[::-1] for w in la}
